@@ -338,8 +338,11 @@ class SchedLock(object):
     code created).  acquire() tries the inner lock without blocking; on failure the thread is
     descheduled until somebody releases.  Records (tid, event, depth) into `log` if given."""
 
-    def __init__(self, sched_ref, inner, log=None, name='lock', hook=None):
+    def __init__(self, sched_ref, inner, log=None, name='lock', hook=None, order=None):
         self._sched_ref = sched_ref     # callable returning the current Scheduler (or None)
+        # callable returning the current lock-order observer (harness/lockwatch.py) or None:
+        # told about every wanted / acquired / blocked / released, also outside scheduled threads
+        self._order = order
         self._inner = inner
         self._log = log
         self._name = name
@@ -356,9 +359,24 @@ class SchedLock(object):
 
     def acquire(self, blocking=True, timeout=-1):
         s = self._sched_ref()
+        w = self._order() if self._order is not None else None
         if s is None or s.me() is None:
-            return self._inner.acquire(blocking, timeout)
+            if w is not None:
+                w.want(None, self)
+            if blocking and timeout == -1:
+                # never wait for ever outside the scheduled threads (set-up phase, oracle): a
+                # lock that cannot be had there is a self-deadlock of the code under test
+                got = self._inner.acquire(True, 15.0)
+                if not got:
+                    raise RuntimeError('%s cannot be acquired in the main thread (held and never released)' % self._name)
+            else:
+                got = self._inner.acquire(blocking, timeout)
+            if got and w is not None:
+                w.got(None, self)
+            return got
         tid = s.me()
+        if w is not None:
+            w.want(tid, self)
         while not self._inner.acquire(False):
             if not blocking:
                 return False
@@ -366,9 +384,13 @@ class SchedLock(object):
                 self._log.append((tid, 'blocked', self.depth))
             if self._hook is not None:
                 self._hook(tid, 'blk')
+            if w is not None:
+                w.blocked(tid, self)
             s.block(tid, self)
         self.owner = tid
         self.depth += 1
+        if w is not None:
+            w.got(tid, self)
         if self._log is not None:
             self._log.append((tid, 'acquire', self.depth))
         if self._hook is not None:
@@ -378,8 +400,13 @@ class SchedLock(object):
     def release(self):
         s = self._sched_ref()
         self._inner.release()            # raises RuntimeError if not owned, like the real one
+        w = self._order() if self._order is not None else None
         if s is None or s.me() is None:
+            if w is not None:
+                w.released(None, self)
             return
+        if w is not None:
+            w.released(s.me(), self)
         self.depth -= 1
         if self._log is not None:
             self._log.append((s.me(), 'release', self.depth))
